@@ -372,14 +372,13 @@ theorem recomputeService_stores (c : Ctl) (sv : Svc) :
     hf.2.2.2.2.1.trans hr.2.2.2.2.1, hf.2.2.2.2.2.1.trans hr.2.2.2.2.2⟩
 
 /-- the loop of `recomputeServiceForPod` over services that are all in `servicesMap` -/
-def recomputeStep (acc : Ctl × Bool) (sv : Svc) : Ctl × Bool :=
-  if acc.2 then acc
-  else match alookup sv.host acc.1.smap with
-    | none => (acc.1, true)
-    | some conv => (refreshIndex (rebuildService acc.1 conv) conv, false)
+def recomputeStep (acc : Ctl) (sv : Svc) : Ctl :=
+  match alookup sv.host acc.smap with
+  | none => acc
+  | some conv => refreshIndex (rebuildService acc conv) conv
 
 theorem recompute_eq (c : Ctl) (p : Pod) :
-    recompute c p = ((c.svcs.filter (fun sv => sv.ns = p.ns ∧ selMatch sv.sel p.labels)).foldl recomputeStep (c, false)).1 := rfl
+    recompute c p = (c.svcs.filter (fun sv => sv.ns = p.ns ∧ selMatch sv.sel p.labels)).foldl recomputeStep c := rfl
 
 theorem recompute_fold_inv (l : List Svc) (c0 c : Ctl) (P Q : Slice → Prop)
     (hinv : InvExcept c Q) (hwf : WF c) (hQP : ∀ x, Q x → P x)
@@ -387,8 +386,8 @@ theorem recompute_fold_inv (l : List Svc) (c0 c : Ctl) (P Q : Slice → Prop)
     (hl : ∀ sv ∈ l, sv ∈ c0.svcs)
     (hP : ∀ sv ∈ l, ∀ x ∈ c0.slices, P x → x.ns = sv.ns → x.svc = sv.name → Servable x →
       ∃ e, e ∈ (buildSlice c0.pods c0.nodes c0.byIP (some sv) x).getD []) :
-    InvExcept (l.foldl recomputeStep (c, false)).1 (fun x => Q x ∧ ¬ ∃ sv ∈ l, x.ns = sv.ns ∧ x.svc = sv.name) ∧
-    (l.foldl recomputeStep (c, false)).1.slices = c0.slices := by
+    InvExcept (l.foldl recomputeStep c) (fun x => Q x ∧ ¬ ∃ sv ∈ l, x.ns = sv.ns ∧ x.svc = sv.name) ∧
+    (l.foldl recomputeStep c).slices = c0.slices := by
   induction l generalizing c Q with
   | nil => exact ⟨hinv.mono (fun x _ hq => ⟨hq, by simp⟩), hst.1⟩
   | cons sv t ih =>
@@ -396,7 +395,7 @@ theorem recompute_fold_inv (l : List Svc) (c0 c : Ctl) (P Q : Slice → Prop)
     have hsv0 : sv ∈ c0.svcs := hl sv (by simp)
     have hsv : sv ∈ c.svcs := by rw [hst.2.1]; exact hsv0
     have hlook : alookup sv.host c.smap = some sv := hinv.smapSome sv hsv (fun h => h)
-    have hstep : recomputeStep (c, false) sv = (refreshIndex (rebuildService c sv) sv, false) := by
+    have hstep : recomputeStep c sv = refreshIndex (rebuildService c sv) sv := by
       unfold recomputeStep
       simp [hlook]
     rw [hstep]
@@ -436,7 +435,7 @@ def PodLabelGood (c : Ctl) (v : Pod) : Prop :=
     (podShouldBeIn v && v.ready) = true ∧ setContains c.byIP v.ip v.key = true ∧ alookup v.ip c.resync = none ∧
     (∀ sl ∈ c.slices, (∃ ea ∈ sl.addrPairs, ea.1.target = some (v.ns, v.name)) →
       sl.ports ≠ [] ∧ ∃ sv ∈ c.svcs, sv.ns = v.ns ∧ selMatch sv.sel v.labels = true ∧ sl.ns = sv.ns ∧ sl.svc = sv.name) ∧
-    o.ip ≠ ""
+    o.ip ≠ "" ∧ workloadOf o = workloadOf v
 
 theorem buildSlice_nonempty (pods : List Pod) (nodes : List Node) (byIP : List (String × List String))
     (svc : Option Svc) (x : Slice) (ea : Ep × String) (tns tn : String) (p : Pod)
@@ -496,7 +495,7 @@ theorem pod_label_edit_inv (c : Ctl) (v : Pod) (c' : Ctl) (hph : v.phase ≠ "F"
   | none => rw [hfo] at hgood; exact absurd hgood (fun h => h)
   | some o =>
     rw [hfo] at hgood
-    obtain ⟨hch, hsa, hnode, hip, hok, hcached, hnowait, hsl, _⟩ := hgood
+    obtain ⟨hch, hsa, hnode, hip, hok, hcached, hnowait, hsl, _, hwl⟩ := hgood
     -- the event is the label-update branch of addPod: recompute, no replay
     have hrun : runAll c1 [podEvOf c v] = recompute c1 v := by
       have hev : podEvOf c v = Ev.podUpd o v := by unfold podEvOf; rw [hfo]
@@ -513,8 +512,8 @@ theorem pod_label_edit_inv (c : Ctl) (v : Pod) (c' : Ctl) (hph : v.phase ≠ "F"
         simp
       rw [hev]
       have hid : idReplays c1 o v = [] := by
-        unfold idReplays
-        simp [hsa, hnode]
+        unfold idReplays idChanged
+        simp [hsa, hnode, hwl]
       simp [runAll, runEvents, handle, hfind, hpe, hid]
     show InvExcept (runAll c1 _) P
     rw [hrun, recompute_eq]
